@@ -109,7 +109,7 @@ pub fn c01_point(case: &Case, r: &Routed, x: &[f64], acc: &mut Acc) {
         acc.inc("excluded_ill_conditioned");
         return;
     }
-    if !in_range(&[rs.jac, s.jacobian]) {
+    if !in_range(&[rs.jac, s.jacobian]) || !crate::sprops::jacobian_powers_in_range(case.g.dim as f64 / 2.0, case.dod, s.u, s.v) {
         acc.inc("excluded_G4");
         return;
     }
